@@ -435,6 +435,13 @@ class BioConsert(RankAggAlgorithm, PairwiseBasedAlgorithm):
 
             # get for each departure ranking the initial value of kemeny score with the input Dataset
             bucket_ids: ndarray = dataset_to_consider.get_bucket_ids().transpose()
+            if dataset_to_consider is not dataset:
+                # the unified dataset is a new Dataset, whose int ids of elements may differ from the ones of the
+                # input dataset (used for the cost matrix): the columns follow the ids of the input dataset
+                id_in_unified: Dict[Element, int] = dataset_to_consider.mapping_elem_id
+                id_elements: Dict[int, Element] = dataset.mapping_id_elem
+                bucket_ids = bucket_ids[:, [id_in_unified[id_elements[id_elem]]
+                                            for id_elem in range(dataset.nb_elements)]]
 
             # to be sure that all the departure rankings are different, use a dct
             distinct_rankings: Set[Tuple[int, ...]] = set()
